@@ -15,7 +15,7 @@ MANIFEST = {
         "design_ref": "DESIGN.md 3/C01",
     }
 }
-PROPS = ["Nstd.Avl.Props", "Nstd.Avl.PropsK", "Nstd.Avl.PropsIds", "Nstd.Avl.PropsRot", "Nstd.Avl.PropsKSpec", "Nstd.Avl.PropsComp", "Nstd.Avl.PropsComp2", "Nstd.Avl.PropsComp3"]
+PROPS = ["Nstd.Avl.Props", "Nstd.Avl.PropsK", "Nstd.Avl.PropsIds", "Nstd.Avl.PropsRot", "Nstd.Avl.PropsKSpec", "Nstd.Avl.PropsComp", "Nstd.Avl.PropsComp2", "Nstd.Avl.PropsComp3", "Nstd.Avl.PropsComp4"]
 LEAN_TARGETS = PROPS + ["drv_avl"]
 DRIVER = "drv_avl"
 
